@@ -2,154 +2,344 @@
 C28 — model of the embedding API `Machine::run_query` / `QueryState::next` / `Drop`
 (`src/machine/lib_machine/mod.rs`).
 
-The WAM search of one query is abstracted to its *script*: the events the search produces when
-it is driven forward (an answer, leaving a choice point behind or not; an uncaught exception;
-or exhaustion). What IS mirrored is the protocol around it: the stub choice point pushed by
-`run_query`, the `called && b <= stub_b` test, reporting of a pending ball (and — since the
-repair — clearing it), the eager `backtrack()` after each answer, `LeafAnswer::False` when the
-search falls back to the stub, and `Drop` popping exactly one frame (`trust_me`).
+What is mirrored: the protocol around the WAM search of a query —
+  * `run_query` pushes the stub choice point (`allocate_stub_choice_point`, its alternative is
+    `BREAK_FROM_DISPATCH_LOOP_LOC`) and points `p` at the goal;
+  * `QueryState::next`: the `called && b <= stub_b` test, `dispatch_loop`, reporting a pending ball
+    (and — since repair 21076e6 — clearing it), `LeafAnswer::False` when the search fell back to the
+    stub, the eager `backtrack()` after each answer;
+  * `Drop`: (since repair a78529e) `if b > stub_b { b = stub_b }`, then `trust_me` pops one frame;
+  * the choice-point stack shared by all queries of a history, the ball, and the clause database.
+What is abstracted: the search itself. A query is an or-tree `Search δ` over a database type `δ`:
+the instructions that matter for the protocol are "push a choice point" (`try_`), "fail" (backtrack
+into the top choice point), "succeed with answer a", "throw b uncaught" and "update the database".
+Bindings are carried as the rendered answer text. Heap, trail and registers are not modelled.
 Import-free.
 -/
 namespace Scryer.Embed
 
-/-- what driving a query's search forward can produce. -/
-inductive Ev where
-  | ans (a : String) (more : Bool)   -- an answer; `more`: a choice point is left behind
-  | exc (b : String)                 -- an uncaught ball
-  deriving Repr, DecidableEq
+/-- the or-tree of a query's search over a database of type `δ`. -/
+inductive Search (δ : Type) where
+  | fail                                  -- this branch has no (more) solutions: backtrack
+  | ans (a : String)                      -- the continuation reaches LIB_QUERY_SUCCESS with answer `a`
+  | exc (b : String)                      -- `throw(b)` that nothing in the query catches
+  | try_ (first alt : Search δ)           -- push a choice point whose alternative is `alt`, run `first`
+  | eff (f : δ → δ) (k : Search δ)        -- update the database (assertz/retract…), continue with `k`
 
-/-- the search of a query: the events in order; after the last event the search fails. -/
-abbrev Script := List Ev
+namespace Search
+def size {δ : Type} : Search δ → Nat
+  | fail => 1
+  | ans _ => 1
+  | exc _ => 1
+  | try_ x y => 1 + x.size + y.size
+  | eff _ k => 1 + k.size
 
-inductive Frame where
-  | stub
-  | cp (rest : Script)               -- retrying it continues the search with `rest`
-  deriving Repr, DecidableEq
+theorem size_pos {δ : Type} (s : Search δ) : 0 < s.size := by
+  cases s <;> simp [size] <;> omega
+end Search
 
-structure Mach where
-  stack : List Frame                 -- choice-point stack, top first
-  ball : Option String               -- `machine_st.ball` (None = empty stub)
-  deriving Repr, DecidableEq
+/-- total size of a work list of searches (termination measure). -/
+def wsize {δ : Type} : List (Search δ) → Nat
+  | [] => 0
+  | s :: w => s.size + wsize w
 
-def Mach.fresh : Mach := { stack := [], ball := none }
+inductive Frame (δ : Type) where
+  | stub                                  -- the frame pushed by `run_query` (bp = BREAK_FROM_DISPATCH_LOOP_LOC)
+  | cp (alt : Search δ)                   -- an ordinary choice point; retrying it runs `alt`
 
-/-- where the dispatch loop will continue. -/
-inductive Pc where
-  | run (s : Script)                 -- forward execution of the remaining search
-  | retry                            -- p = the alternative of the top choice point (after `backtrack()`)
-  | atBreak                          -- p = BREAK_FROM_DISPATCH_LOOP_LOC
-  deriving Repr, DecidableEq
+/-- the part of `Machine` the protocol depends on. -/
+structure Mach (δ : Type) where
+  stack : List (Frame δ)                  -- or-stack, top first (`machine_st.b` = its height)
+  ball : Option String                    -- `machine_st.ball` (`none` = `ball.stub.is_empty()`)
+  db : δ                                  -- clause database
 
-structure QState where
-  stubDepth : Nat                    -- stack height with the stub on top (`stub_b`)
+/-- a machine that has run no query yet. -/
+def Mach.fresh {δ : Type} (d : δ) : Mach δ := { stack := [], ball := none, db := d }
+
+/-- the value of `machine_st.p` between two `dispatch_loop` calls. -/
+inductive Pc (δ : Type) where
+  | run (s : Search δ)                    -- at the goal (set by `run_query`)
+  | retry                                 -- at the alternative of the top choice point (after `backtrack()`)
+  | atBreak                               -- BREAK_FROM_DISPATCH_LOOP_LOC
+
+/-- `QueryState` (the iterator). `p` is kept here: `run_query` writes it before it is ever read. -/
+structure QState (δ : Type) where
+  stubDepth : Nat                         -- `stub_b`: stack height with this query's stub on top
   called : Bool
-  pc : Pc
+  pc : Pc δ
+
+/-- what `next` hands to the caller. -/
+inductive Item where
+  | answer (a : String)                   -- LeafAnswer::True / LeafAnswer::LeafAnswer{bindings}
+  | exception (b : String)                -- LeafAnswer::Exception(t) / Err(t)
+  | falseEnd                              -- LeafAnswer::False
   deriving Repr, DecidableEq
 
-inductive Item where
-  | answer (a : String)
-  | exception (b : String)
-  | falseEnd                         -- LeafAnswer::False
-  deriving Repr, DecidableEq
+/-- the two repairs as switches; `repaired` is the code at /repo HEAD. -/
+structure Cfg where
+  clearBall : Bool                        -- 21076e6: `ball.reset()` once the exception has been delivered
+  discardOnDrop : Bool                    -- a78529e: `if b > stub_b { b = stub_b }` before `trust_me`
+
+def Cfg.repaired : Cfg := { clearBall := true, discardOnDrop := true }
 
 /-- `run_query`: push the stub choice point and point the machine at the goal. -/
-def runQuery (m : Mach) (s : Script) : Mach × QState :=
+def runQuery {δ : Type} (m : Mach δ) (s : Search δ) : Mach δ × QState δ :=
   let m' := { m with stack := .stub :: m.stack }
   (m', { stubDepth := m'.stack.length, called := false, pc := .run s })
 
-/-- `backtrack()`: point `p` at the alternative stored in the top choice point. The frame
-    itself is only popped when that alternative executes its `trust`. -/
-def backtrack (m : Mach) : Pc :=
+/-- `backtrack()`: point `p` at the alternative stored in the top choice point. The frame itself is
+    only popped when that alternative executes its `trust_me`/`retry_me_else`. -/
+def backtrack {δ : Type} (m : Mach δ) : Pc δ :=
   match m.stack with
   | .cp _ :: _ => .retry
   | _ => .atBreak                          -- the stub: bp = BREAK_FROM_DISPATCH_LOOP_LOC
 
-/-- unwinding to the stub on an uncaught exception (`b := block`). -/
-def unwindTo (depth : Nat) (stack : List Frame) : List Frame :=
+/-- keep the lowest `depth` frames (`b := block` on an uncaught throw; `b = stub_b` in `drop`). -/
+def unwindTo {δ : Type} (depth : Nat) (stack : List (Frame δ)) : List (Frame δ) :=
   stack.drop (stack.length - depth)
 
 inductive Stop where
-  | success (a : String)
-  | broke                                  -- fell back to the stub / exception unwound
+  | success (a : String)                   -- p = LIB_QUERY_SUCCESS
+  | broke                                  -- p = BREAK_FROM_DISPATCH_LOOP_LOC
   deriving Repr, DecidableEq
 
-/-- `dispatch_loop`: drive the search until an answer or the break location
-    (fuel: every retry consumes a choice point or an event). -/
-def dispatch : Nat → QState → Mach → Pc → Mach × Stop
-  | 0, _, m, _ => (m, .broke)
-  | _, _, m, .atBreak => (m, .broke)
-  | fuel+1, q, m, .retry =>
+def ssize {δ : Type} : List (Frame δ) → Nat
+  | [] => 0
+  | .stub :: r => ssize r
+  | .cp a :: r => a.size + ssize r
+
+/-- forward execution of `s` on the stack `st` (top first) with database `d`, until the dispatch loop
+    stops: an answer, or the break location (fell back to a stub, or an uncaught ball unwound to
+    `stubDepth`). Returns the stack, the ball raised (if any), the database and the stop reason. -/
+def exec {δ : Type} (stubDepth : Nat) :
+    Search δ → List (Frame δ) → δ → List (Frame δ) × Option String × δ × Stop
+  | .ans a, st, d => (st, none, d, .success a)
+  | .exc b, st, d => (unwindTo stubDepth st, some b, d, .broke)
+  | .eff f k, st, d => exec stubDepth k st (f d)
+  | .try_ x y, st, d => exec stubDepth x (.cp y :: st) d
+  | .fail, .cp alt :: below, d => exec stubDepth alt below d
+  | .fail, st, d => (st, none, d, .broke)
+termination_by s st => s.size + ssize st
+decreasing_by
+  all_goals simp [Search.size, ssize]
+  all_goals omega
+
+/-- `dispatch_loop` entered with the `p` recorded in the iterator. -/
+def dispatch {δ : Type} (q : QState δ) (m : Mach δ) : Mach δ × Stop :=
+  let fin := fun (r : List (Frame δ) × Option String × δ × Stop) =>
+    (({ stack := r.1, ball := match r.2.1 with | some b => some b | none => m.ball, db := r.2.2.1 } : Mach δ),
+     r.2.2.2)
+  match q.pc with
+  | .atBreak => (m, .broke)
+  | .run s => fin (exec q.stubDepth s m.stack m.db)
+  | .retry =>
     match m.stack with
-    | .cp rest :: below => dispatch fuel q { m with stack := below } (.run rest)
+    | .cp alt :: below => fin (exec q.stubDepth alt below m.db)
     | _ => (m, .broke)
-  | fuel+1, q, m, .run s =>
-    match s with
-    | .ans a more :: rest =>
-        (if more then { m with stack := .cp rest :: m.stack } else m, .success a)
-    | .exc b :: _ =>
-        ({ stack := unwindTo q.stubDepth m.stack, ball := some b }, .broke)
-    | [] => dispatch fuel q m (backtrack m)
 
-def fuelFor (m : Mach) (pc : Pc) : Nat :=
-  let scriptLen : Pc → Nat | .run s => s.length | _ => 0
-  2 * ((m.stack.map fun | .stub => 1 | .cp r => r.length + 2).foldl (· + ·) 0 + scriptLen pc + 2)
-
-/-- `QueryState::next` (repaired: the delivered ball is cleared; `clearBall := false` gives
-    the code as it was). -/
-def next (clearBall : Bool) (q : QState) (m : Mach) : Option Item × QState × Mach :=
+/-- `QueryState::next`. -/
+def next {δ : Type} (cfg : Cfg) (q : QState δ) (m : Mach δ) : Option Item × QState δ × Mach δ :=
   if q.called && decide (m.stack.length ≤ q.stubDepth) then (none, q, m)
   else
-    let (m1, stop) := dispatch (fuelFor m q.pc) q m q.pc
+    let (m1, stop) := dispatch q m
     let q1 := { q with called := true }
     match m1.ball with
     | some b =>
         (some (.exception b), { q1 with pc := .atBreak },
-         if clearBall then { m1 with ball := none } else m1)
+         if cfg.clearBall then { m1 with ball := none } else m1)
     | none =>
       match stop with
-      | .success a =>
-          (some (.answer a), { q1 with pc := backtrack m1 }, m1)
+      | .success a => (some (.answer a), { q1 with pc := backtrack m1 }, m1)
       | .broke => (some .falseEnd, { q1 with pc := .atBreak }, m1)
 
-/-- `Drop for QueryState`: `trust_me` pops one frame. -/
-def drop (m : Mach) : Mach := { m with stack := m.stack.drop 1 }
+/-- `Drop for QueryState`. -/
+def drop {δ : Type} (cfg : Cfg) (q : QState δ) (m : Mach δ) : Mach δ :=
+  let st := if cfg.discardOnDrop && decide (m.stack.length > q.stubDepth)
+            then unwindTo q.stubDepth m.stack else m.stack
+  { m with stack := st.drop 1 }            -- `trust_me` pops the top frame
 
-/-- consume up to `k` items, then drop the iterator. -/
-def consume (clearBall : Bool) : Nat → QState → Mach → List Item → List Item × Mach
-  | 0, _, m, acc => (acc.reverse, drop m)
-  | k+1, q, m, acc =>
-    match next clearBall q m with
-    | (none, _, m') => (acc.reverse, drop m')
-    | (some it, q', m') => consume clearBall k q' m' (it :: acc)
+/-- the embedding program `for ans in qs.take(k)`: ask for up to `k` items, then drop the iterator
+    (asking stops at the first `None`). Returns the items delivered and the machine after `drop`. -/
+def consume {δ : Type} (cfg : Cfg) : Nat → QState δ → Mach δ → List Item × Mach δ
+  | 0, q, m => ([], drop cfg q m)
+  | k+1, q, m =>
+    match next cfg q m with
+    | (none, q', m') => ([], drop cfg q' m')
+    | (some it, q', m') =>
+      let r := consume cfg k q' m'
+      (it :: r.1, r.2)
 
-def runOne (clearBall : Bool) (m : Mach) (s : Script) (k : Nat) : List Item × Mach :=
-  let (m', q) := runQuery m s
-  consume clearBall k q m' []
+/-- `n` successive calls of `next` without dropping: what each returned, and the final state. -/
+def pull {δ : Type} (cfg : Cfg) : Nat → QState δ → Mach δ → List (Option Item) × QState δ × Mach δ
+  | 0, q, m => ([], q, m)
+  | n+1, q, m =>
+    match next cfg q m with
+    | (it, q', m') =>
+      let r := pull cfg n q' m'
+      (it :: r.1, r.2)
 
-/-- a history of queries, each consumed to a prefix of `k` items. -/
-def runHistory (clearBall : Bool) : Mach → List (Script × Nat) → List (List Item)
-  | _, [] => []
-  | m, (s, k) :: rest =>
-    let (items, m') := runOne clearBall m s k
-    items :: runHistory clearBall m' rest
+/-- a query as the embedding sees it: the goal text denotes a search that depends on the database
+    it is started in. -/
+abbrev Query (δ : Type) := δ → Search δ
 
-/-! ### specification -/
+def runOne {δ : Type} (cfg : Cfg) (m : Mach δ) (g : Query δ) (k : Nat) : List Item × Mach δ :=
+  let (m', q) := runQuery m (g m.db)
+  consume cfg k q m'
 
-/-- the observable stream of a query on its own. -/
-def stream : Script → List Item
-  | [] => [.falseEnd]
-  | .exc b :: _ => [.exception b]
-  | [.ans a false] => [.answer a]            -- deterministic exit: iteration simply ends
-  | .ans a _ :: rest => .answer a :: stream rest
+/-- a history: queries, each consumed to at most `k` items and then dropped. -/
+def runHistory {δ : Type} (cfg : Cfg) : Mach δ → List (Query δ × Nat) → List (List Item) × Mach δ
+  | m, [] => ([], m)
+  | m, (g, k) :: rest =>
+    let (items, m') := runOne cfg m g k
+    let r := runHistory cfg m' rest
+    (items :: r.1, r.2)
 
-/-- scripts the WAM can produce: an answer that leaves no choice point is the last event. -/
-def wfScript : Script → Bool
-  | [] => true
-  | .exc _ :: _ => true
-  | .ans _ false :: rest => rest.isEmpty
-  | .ans _ true :: rest => wfScript rest
+/-! ### specification: the query on its own -/
 
-def specHistory (h : List (Script × Nat)) : List (List Item) :=
-  h.map fun (s, k) => (stream s).take k
+/-- the linear course of a depth-first search. -/
+inductive Script (δ : Type) where
+  | fail (d : δ)                          -- exhausted; database afterwards
+  | exc (b : String) (d : δ)              -- uncaught ball
+  | last (a : String) (d : δ)             -- an answer that leaves no choice point
+  | more (a : String) (d : δ) (rest : Script δ)   -- an answer with alternatives left
+
+/-- depth-first, left-to-right traversal of a work list (head = running, tail = pending
+    alternatives, innermost first) started with database `d`. -/
+def go {δ : Type} : List (Search δ) → δ → Script δ
+  | [], d => .fail d
+  | .fail :: w, d => go w d
+  | .exc b :: _, d => .exc b d
+  | .eff f k :: w, d => go (k :: w) (f d)
+  | .try_ x y :: w, d => go (x :: y :: w) d
+  | .ans a :: [], d => .last a d
+  | .ans a :: s :: w, d => .more a d (go (s :: w) d)
+termination_by w => wsize w
+decreasing_by
+  all_goals simp [wsize, Search.size]
+  all_goals omega
+
+/-- the items a caller sees when it asks until `None`. -/
+def Script.stream {δ : Type} : Script δ → List Item
+  | .fail _ => [.falseEnd]
+  | .exc b _ => [.exception b]
+  | .last a _ => [.answer a]
+  | .more a _ r => .answer a :: r.stream
+
+/-- the database after `k` items have been asked for (`d0`: before the query). -/
+def Script.dbAt {δ : Type} : Script δ → Nat → δ → δ
+  | _, 0, d0 => d0
+  | .fail d, _+1, _ => d
+  | .exc _ d, _+1, _ => d
+  | .last _ d, _+1, _ => d
+  | .more _ d r, k+1, _ => r.dbAt k d
+
+/-- the answers proper. -/
+def Script.answers {δ : Type} : Script δ → List String
+  | .fail _ => []
+  | .exc _ _ => []
+  | .last a _ => [a]
+  | .more a _ r => a :: r.answers
+
+/-- how the stream ends after the answers. -/
+def Script.ending {δ : Type} : Script δ → List Item
+  | .fail _ => [.falseEnd]
+  | .exc b _ => [.exception b]
+  | .last _ _ => []
+  | .more _ _ r => r.ending
+
+/-- the meaning of query `g` started in database `d`. -/
+def meaning {δ : Type} (g : Query δ) (d : δ) : Script δ := go [g d] d
+
+/-- specification of a history: every query is judged on its own, from the database its
+    predecessors left. -/
+def specHistory {δ : Type} : δ → List (Query δ × Nat) → List (List Item) × δ
+  | d, [] => ([], d)
+  | d, (g, k) :: rest =>
+    let sc := meaning g d
+    let r := specHistory (sc.dbAt k d) rest
+    (sc.stream.take k :: r.1, r.2)
+
+/-! ### a concrete query vocabulary over a database of `f/1` integer facts (used by the driver) -/
+
+abbrev Db := List Int
+
+/-- clause alternatives: try / retry / trust — the last alternative runs with no choice point. -/
+def alts {δ : Type} : List (Search δ) → Search δ
+  | [] => .fail
+  | [x] => x
+  | x :: xs => .try_ x (alts xs)
+
+def showInt (i : Int) : String := toString i
+
+def showList (l : List Int) : String := "[" ++ ",".intercalate (l.map showInt) ++ "]"
+
+/-- how a scripted (database-independent) query ends. -/
+inductive PEnd where
+  | det                                   -- last answer leaves no choice point
+  | fails                                 -- falls back to the stub
+  | throws (b : String)
+
+/-- query templates; the Prolog text of each is produced by `vlib/props/C28.py::render`. -/
+inductive Tpl where
+  | pure (answers : List String) (e : PEnd)   -- scripted from the query's run on a fresh machine
+  | enum                                  -- f(X).
+  | addz (n : Int)                        -- assertz(f(n)).
+  | adda (n : Int)                        -- asserta(f(n)).
+  | retr                                  -- retract(f(X)).
+  | retrGt (n : Int)                      -- retract(f(X)), X > n.
+  | enumAdd (d : Int)                     -- f(X), Y is X+d, assertz(f(Y)).
+  | enumAddLt (d n : Int)                 -- f(X), Y is X+d, assertz(f(Y)), X < n.
+  | enumThrow (n : Int)                   -- f(X), ( X >= n -> throw(hit(X)) ; true ).
+  | addThrow (n : Int)                    -- assertz(f(n)), throw(oops(n)).
+  | enumOrThrow                           -- ( f(X) ; throw(late) ).
+  | membAdd (xs : List Int)               -- member(X, xs), assertz(f(X)).
+  | pairs (xs ys : List Int)              -- member(X, xs), member(Y, ys).
+  | pairsAdd (xs ys : List Int)           -- member(X, xs), member(Y, ys), Z is X*10+Y, assertz(f(Z)).
+  | snap                                  -- findall(X, f(X), L).
+  | clear                                 -- retractall(f(_)).
+  | has (n : Int)                         -- ( f(n) -> R = yes ; R = no ).
+  | retrThrow (n : Int)                   -- retract(f(X)), X >= n, throw(got(X)).
+
+def bX (v : Int) : String := "{X=" ++ showInt v ++ "}"
+def bXY (x y : Int) : String := "{X=" ++ showInt x ++ ",Y=" ++ showInt y ++ "}"
+
+def pureTree : List String → PEnd → Search Db
+  | [], .det => .fail                      -- (not produced: a query without answers falls to the stub)
+  | [], .fails => .fail
+  | [], .throws b => .exc b
+  | [a], .det => .ans a
+  | a :: r, e => .try_ (.ans a) (pureTree r e)
+
+def Tpl.sem : Tpl → Query Db
+  | .pure as e, _ => pureTree as e
+  | .enum, db => alts (db.map fun v => .ans (bX v))
+  | .addz n, _ => .eff (· ++ [n]) (.ans "true")
+  | .adda n, _ => .eff (n :: ·) (.ans "true")
+  | .retr, db => alts (db.map fun v => .eff (·.drop 1) (.ans (bX v)))
+  | .retrGt n, db => alts (db.map fun v => .eff (·.drop 1) (if v > n then .ans (bX v) else .fail))
+  | .enumAdd d, db => alts (db.map fun v => .eff (· ++ [v + d]) (.ans (bXY v (v + d))))
+  | .enumAddLt d n, db =>
+      alts (db.map fun v => .eff (· ++ [v + d]) (if v < n then .ans (bXY v (v + d)) else .fail))
+  | .enumThrow n, db =>
+      alts (db.map fun v => if v ≥ n then .exc ("exception('hit'(" ++ showInt v ++ "))") else .ans (bX v))
+  | .addThrow n, _ => .eff (· ++ [n]) (.exc ("exception('oops'(" ++ showInt n ++ "))"))
+  | .enumOrThrow, db => .try_ (alts (db.map fun v => .ans (bX v))) (.exc "exception('late')")
+  | .membAdd xs, _ => alts (xs.map fun v => .eff (· ++ [v]) (.ans (bX v)))
+  | .pairs xs ys, _ => alts (xs.map fun x => alts (ys.map fun y => .ans (bXY x y)))
+  | .pairsAdd xs ys, _ =>
+      alts (xs.map fun x => alts (ys.map fun y =>
+        .eff (· ++ [x * 10 + y])
+          (.ans ("{X=" ++ showInt x ++ ",Y=" ++ showInt y ++ ",Z=" ++ showInt (x * 10 + y) ++ "}"))))
+  | .snap, db => .ans ("{L=" ++ showList db ++ "}")
+  | .clear, _ => .eff (fun _ => []) (.ans "true")
+  | .has n, db => .ans (if db.contains n then "{R='yes'}" else "{R='no'}")
+  | .retrThrow n, db =>
+      alts (db.map fun v => .eff (·.drop 1)
+        (if v ≥ n then .exc ("exception('got'(" ++ showInt v ++ "))") else .fail))
+
+def showItem : Item → String
+  | .answer a => a
+  | .exception b => b
+  | .falseEnd => "false"
 
 end Scryer.Embed
